@@ -23,7 +23,8 @@
 //!        ep 0 register 1 add_appointment 2 other; cls = the reply class the tower gave;
 //!        v1 v2 v3 = (available_slots, subscription_start, subscription_expiry) of a register reply that carries a
 //!        receipt, (available_slots, 0, 0) of an add_appointment reply that carries one, 0 0 0 otherwise
-use std::collections::HashMap;
+use std::collections::{HashMap, HashSet};
+use std::sync::atomic::{AtomicBool, AtomicU64, Ordering};
 use std::io::Write;
 use std::path::{Path, PathBuf};
 use std::process::Stdio;
@@ -117,6 +118,7 @@ const A_EMPTY: u64 = 7; // empty body
 const A_HUGE: u64 = 8; // 1 MB of text
 const A_RESET: u64 = 9; // connection closed without an answer
 const A_WRONGTYPES: u64 = 10; // the right keys with wrong types
+const A_HOLD: u64 = 11; // accept, but hold the reply until the class of the tower is changed (MODE t <other>), 30 s at most
 // reply classes of register
 const R_GOOD: u64 = 0;
 const R_BADSIG: u64 = 1;
@@ -240,6 +242,7 @@ async fn handle_conn(mut s: tokio::net::TcpStream, st: Arc<Mutex<TowerState>>, i
     let (tower_sk, _) = key_of(id);
     let (other_sk, _) = key_of(100 + id);
     let mut reply: Option<String> = None; // None = close without answering
+    let mut held = false;
     {
         let mut g = st.lock().unwrap();
         g.last_ms = ms;
@@ -288,10 +291,12 @@ async fn handle_conn(mut s: tokio::net::TcpStream, st: Arc<Mutex<TowerState>>, i
             let req = serde_json::from_slice::<msgs::AddAppointmentRequest>(body).ok();
             let loc = req.as_ref().and_then(|r| r.appointment.as_ref()).map(|a| loc_of_bytes(&a.locator)).unwrap_or(-2);
             let (slots, _start, expiry) = sub_values(g.gen);
-            let has_receipt = matches!(cls, A_ACCEPT | A_WRONGKEY | A_BADSIG);
-            g.log.push(LogEntry { t: id, ep: 1, l: loc, cls, ms, v: (if has_receipt { slots } else { 0 }, 0, 0) });
+            let has_receipt = matches!(cls, A_ACCEPT | A_WRONGKEY | A_BADSIG | A_HOLD);
+            // (a held reply is an acceptance: it is logged as such, at the time the request arrived)
+            held = cls == A_HOLD;
+            g.log.push(LogEntry { t: id, ep: 1, l: loc, cls: if held { A_ACCEPT } else { cls }, ms, v: (if has_receipt { slots } else { 0 }, 0, 0) });
             reply = match cls {
-                A_ACCEPT | A_WRONGKEY | A_BADSIG => {
+                A_ACCEPT | A_WRONGKEY | A_BADSIG | A_HOLD => {
                     let req = req.unwrap();
                     let mut r = AppointmentReceipt::new(req.signature.clone(), 50);
                     r.sign(if cls == A_WRONGKEY { &other_sk } else { &tower_sk });
@@ -322,6 +327,13 @@ async fn handle_conn(mut s: tokio::net::TcpStream, st: Arc<Mutex<TowerState>>, i
             g.log.push(LogEntry { t: id, ep: 2, l: -1, cls: 0, ms, v: (0, 0, 0) });
             reply = Some("{}".to_string());
         }
+    }
+    if held {
+        let since = Instant::now();
+        while st.lock().unwrap().add == A_HOLD && since.elapsed() < Duration::from_secs(30) {
+            tokio::time::sleep(Duration::from_millis(5)).await;
+        }
+        st.lock().unwrap().last_ms = t0.elapsed().as_millis() as u64;
     }
     if let Some(b) = reply {
         let resp = format!("HTTP/1.1 200 OK\r\nContent-Type: application/json\r\nContent-Length: {}\r\nConnection: close\r\n\r\n", b.len());
@@ -456,6 +468,7 @@ const K_KILL: u64 = 9;
 const K_START: u64 = 10;
 const K_REVNOWAIT: u64 = 11;
 const K_WAKE: u64 = 12;
+const K_WAITSTATUS: u64 = 13; // wait (15 s at most) until listtowers shows tower a with status b
 
 fn status_code(s: &str) -> i64 {
     match s {
@@ -468,7 +481,134 @@ fn status_code(s: &str) -> i64 {
     }
 }
 
+// ------------------------------------------------------------------ the database sampler
+/// A background thread per scenario that reads the plugin's sqlite file (read-only, one tiny read transaction per sample)
+/// and watches every (tower, locator) pair: a pair that HAD a record (receipt, pending or invalid row) in an earlier sample and
+/// has none in a later one although the tower's row is still there has VANISHED (C05: "at all times ... durably recorded").
+#[derive(Default)]
+struct SampShared {
+    samples: u64,
+    moves: u64,      // pairs seen pending first and with a receipt later (a pending -> accepted move went by)
+    both: u64,       // ... of which the intermediate two-record state was caught by a sample
+    events: Vec<(i64, i64, u64, String)>, // (tower, locator, ms, sampled state)
+    suspended: HashSet<i64>, // towers being abandoned right now
+    reset: HashSet<i64>,     // towers whose history must be forgotten (abandoned)
+}
+struct Sampler {
+    stop: Arc<AtomicBool>,
+    period_us: Arc<AtomicU64>,
+    shared: Arc<Mutex<SampShared>>,
+    handle: Option<std::thread::JoinHandle<()>>,
+}
+impl Sampler {
+    fn start(db: PathBuf, t0: Instant, period_us: u64) -> Sampler {
+        let stop = Arc::new(AtomicBool::new(false));
+        let period = Arc::new(AtomicU64::new(period_us));
+        let shared = Arc::new(Mutex::new(SampShared::default()));
+        let (stop2, period2, shared2) = (stop.clone(), period.clone(), shared.clone());
+        let handle = std::thread::spawn(move || {
+            let mut conn: Option<Connection> = None;
+            // per pair: bit 1 receipt, 2 pending, 4 invalid (last sample); history flags
+            let mut seen: HashMap<(i64, i64), u8> = HashMap::new();
+            let mut was_pending: HashSet<(i64, i64)> = HashSet::new();
+            let mut moved: HashSet<(i64, i64)> = HashSet::new();
+            let mut both: HashSet<(i64, i64)> = HashSet::new();
+            let mut reported: HashSet<(i64, i64)> = HashSet::new();
+            while !stop2.load(Ordering::Relaxed) {
+                let us = period2.load(Ordering::Relaxed);
+                if conn.is_none() {
+                    if db.exists() {
+                        if let Ok(c) = Connection::open_with_flags(&db, OpenFlags::SQLITE_OPEN_READ_ONLY | OpenFlags::SQLITE_OPEN_NO_MUTEX) {
+                            let _ = c.busy_timeout(Duration::from_millis(300));
+                            conn = Some(c);
+                        }
+                    }
+                    if conn.is_none() {
+                        std::thread::sleep(Duration::from_millis(5));
+                        continue;
+                    }
+                }
+                // ONE statement = one read transaction = one consistent snapshot
+                let mut towers: HashSet<i64> = HashSet::new();
+                let mut recs: HashMap<(i64, i64), u8> = HashMap::new();
+                let ok = (|| -> rusqlite::Result<()> {
+                    let c = conn.as_ref().unwrap();
+                    let mut stmt = c.prepare_cached(
+                        "SELECT 0, tower_id, NULL FROM towers UNION ALL SELECT 1, tower_id, locator FROM appointment_receipts \
+                         UNION ALL SELECT 2, tower_id, locator FROM pending_appointments UNION ALL SELECT 4, tower_id, locator FROM invalid_appointments",
+                    )?;
+                    let mut rows = stmt.query([])?;
+                    while let Some(row) = rows.next()? {
+                        let kind: i64 = row.get(0)?;
+                        let t = tower_of_bytes(&row.get::<_, Vec<u8>>(1)?);
+                        if kind == 0 {
+                            towers.insert(t);
+                        } else {
+                            let l = loc_of_bytes(&row.get::<_, Vec<u8>>(2)?);
+                            *recs.entry((t, l)).or_insert(0) |= kind as u8;
+                        }
+                    }
+                    Ok(())
+                })();
+                if ok.is_err() {
+                    // busy for longer than the timeout, or the schema is not there yet: not a sample
+                    std::thread::sleep(Duration::from_micros(us.max(200)));
+                    continue;
+                }
+                let ms = t0.elapsed().as_millis() as u64;
+                let mut g = shared2.lock().unwrap();
+                g.samples += 1;
+                if !g.reset.is_empty() {
+                    let rs: Vec<i64> = g.reset.drain().collect();
+                    for set in [&mut was_pending, &mut moved, &mut both, &mut reported] {
+                        set.retain(|p| !rs.contains(&p.0));
+                    }
+                    seen.retain(|p, _| !rs.contains(&p.0));
+                }
+                for (p, _) in seen.iter() {
+                    if !recs.contains_key(p) && towers.contains(&p.0) && !g.suspended.contains(&p.0) && !reported.contains(p) {
+                        reported.insert(*p);
+                        let state = format!(
+                            "tower_row=1,records_of_pair=0,records_of_tower={}",
+                            recs.keys().filter(|q| q.0 == p.0).count()
+                        );
+                        g.events.push((p.0, p.1, ms, state));
+                    }
+                }
+                seen.retain(|p, _| towers.contains(&p.0) && !g.suspended.contains(&p.0));
+                for (p, mask) in recs.iter() {
+                    if g.suspended.contains(&p.0) {
+                        continue;
+                    }
+                    if mask & 2 != 0 {
+                        was_pending.insert(*p);
+                    }
+                    if mask & 1 != 0 && was_pending.contains(p) && moved.insert(*p) {
+                        g.moves += 1;
+                    }
+                    if mask & 3 == 3 && both.insert(*p) {
+                        g.both += 1;
+                    }
+                    seen.insert(*p, *mask);
+                }
+                drop(g);
+                if us > 0 {
+                    std::thread::sleep(Duration::from_micros(us));
+                }
+            }
+        });
+        Sampler { stop, period_us: period, shared, handle: Some(handle) }
+    }
+    fn finish(&mut self) {
+        self.stop.store(true, Ordering::Relaxed);
+        if let Some(h) = self.handle.take() {
+            let _ = h.join();
+        }
+    }
+}
+
 struct Runner {
+    sampler: Sampler,
     bin: PathBuf,
     dir: PathBuf,
     sc: Scenario,
@@ -597,13 +737,45 @@ impl Runner {
             }
             K_RETRY | K_ABANDON => {
                 let m = if k == K_RETRY { "retrytower" } else { "abandontower" };
-                match self.plugin.as_mut() {
+                if k == K_ABANDON {
+                    // the records of an abandoned tower go away legitimately
+                    let mut g = self.sampler.shared.lock().unwrap();
+                    g.suspended.insert(a as i64);
+                    g.reset.insert(a as i64);
+                }
+                let r = match self.plugin.as_mut() {
                     None => 3,
                     Some(p) => match p.call(m, json!([tower_hex(a)]), 5000).await {
                         Answer::Ok(_) => 0,
                         Answer::Err(_) => 1,
                         Answer::Timeout => 2,
                     },
+                };
+                if k == K_ABANDON {
+                    tokio::time::sleep(Duration::from_millis(20)).await;
+                    let mut g = self.sampler.shared.lock().unwrap();
+                    g.reset.insert(a as i64);
+                    g.suspended.remove(&(a as i64));
+                }
+                r
+            }
+            K_WAITSTATUS => {
+                let since = Instant::now();
+                loop {
+                    let cur = match self.plugin.as_mut() {
+                        None => None,
+                        Some(p) => match p.call("listtowers", json!([]), 3000).await {
+                            Answer::Ok(v) => v.as_object().and_then(|m| m.get(&tower_hex(a)).map(|s| status_code(s["status"].as_str().unwrap_or("")))),
+                            _ => None,
+                        },
+                    };
+                    if cur == Some(b as i64) {
+                        break 0;
+                    }
+                    if since.elapsed() > Duration::from_secs(15) {
+                        break 2;
+                    }
+                    tokio::time::sleep(Duration::from_millis(100)).await;
                 }
             }
             K_KILL => {
@@ -748,6 +920,19 @@ impl Runner {
         for e in entries {
             l.tok(e.t).tok(e.ep).tok(e.l).tok(e.cls).tok(e.ms).tok(e.v.0).tok(e.v.1).tok(e.v.2);
         }
+        // what the database sampler saw since the previous observation
+        let (samples, moves, both, events) = {
+            let mut g = self.sampler.shared.lock().unwrap();
+            let r = (g.samples, g.moves, g.both, std::mem::take(&mut g.events));
+            g.samples = 0;
+            g.moves = 0;
+            g.both = 0;
+            r
+        };
+        l.tok("VAN").tok(samples).tok(moves).tok(both).tok(events.len());
+        for (t, loc, ms, state) in events {
+            l.tok(t).tok(loc).tok(ms).tok(state);
+        }
     }
 
     fn raw(&self, l: &mut Line) {
@@ -841,7 +1026,10 @@ async fn run_scenario(id: usize, bin: PathBuf, scratch: PathBuf, sc: Scenario) -
     for t in 0..sc.nt {
         towers.push(FakeTower::new(t, t0).await);
     }
-    let mut r = Runner { bin, dir, sc: sc.clone(), towers, plugin: None, t0, user_id: None };
+    // bulk-delivery families: sample as fast as possible; elsewhere a cheap 10 ms period
+    let period_us = if matches!(sc.family, 26 | 28) { 2000 } else { 25_000 };
+    let sampler = Sampler::start(dir.join("watchtowers_db.sql3"), t0, period_us);
+    let mut r = Runner { sampler, bin, dir, sc: sc.clone(), towers, plugin: None, t0, user_id: None };
     let mut l = Line::new();
     l.tok("CP").tok(id).tok(sc.family).tok(sc.nt).tok(sc.opts.0).tok(sc.opts.1).tok(sc.opts.2).tok(sc.steps.len() + 1);
     let mut steps = vec![(K_START, 0, 0)];
@@ -863,6 +1051,7 @@ async fn run_scenario(id: usize, bin: PathBuf, scratch: PathBuf, sc: Scenario) -
         r.observe(&mut l).await;
     }
     l.tok("END");
+    r.sampler.finish();
     if let Some(p) = r.plugin.take() {
         p.kill().await;
     }
@@ -987,6 +1176,34 @@ fn families() -> Vec<Scenario> {
         v.push(fam(25, 1, o, vec![(K_REG, 0, R_GOOD), (K_SETTLE, 0, 0), (K_MODE, 0, A_SUBERR), (K_MODE, 0, 100 + cls), (K_REV, 0, 0), (K_SLEEP, 9000, 0), (K_SETTLE, 0, 0), (K_RETRY, 0, 0),
                                   (K_SETTLE, 0, 0), (K_MODE, 0, A_ACCEPT), (K_MODE, 0, 100 + R_GOOD), (K_RETRY, 0, 0), (K_SETTLE, 0, 0)]));
     }
+    // 26: BULK delivery: many appointments pending for a tower that is down; it comes back and ONE retry run delivers them one
+    //     after the other, each a pending -> accepted move (two durable writes) the database sampler watches at full rate
+    //     (the retrier is idle while the appointments pile up, so that nothing else is going on)
+    for n in [12u64; 14] {
+        let mut steps = vec![(K_REG, 0, R_GOOD), (K_UP, 0, 0), (K_REV, 0, 0), (K_SETTLE, 0, 0)];
+        for l in 1..n {
+            steps.push((K_REV, l, 0));
+        }
+        steps.extend([(K_UP, 0, 1), (K_RETRY, 0, 0), (K_SLEEP, 4000, 0), (K_SETTLE, 0, 0)]);
+        v.push(fam(26, 1, o, steps));
+    }
+    // 27: a revocation whose handler waits for a SLOW tower X while the retrier of tower Y (down) exhausts its back-off: the handler took
+    //     its status snapshot when Y was temporary unreachable and reaches Y when its retrier is idle. Every pair must still get a record.
+    //     (both role assignments, several times: the order in which the handler visits the towers is the HashMap's)
+    for i in 0..10u64 {
+        let (x, y) = if i % 2 == 0 { (0, 1) } else { (1, 0) };
+        v.push(fam(27, 2, o, vec![(K_REG, 0, R_GOOD), (K_REG, 1, R_GOOD), (K_UP, y, 0), (K_REV, 0, 0), (K_MODE, x, A_HOLD), (K_REVNOWAIT, 1, 0), (K_WAITSTATUS, y, 2),
+                                  (K_MODE, x, A_ACCEPT), (K_SETTLE, 0, 0)]));
+    }
+    // 28: the plugin is KILLED at some point of a bulk delivery and started again: what had a record before has one after
+    for ms in [1250u64, 1400, 1550, 1700, 1850, 2000, 2150, 2300] {
+        let mut steps = vec![(K_REG, 0, R_GOOD), (K_UP, 0, 0), (K_REV, 0, 0), (K_SETTLE, 0, 0)];
+        for l in 1..10 {
+            steps.push((K_REV, l, 0));
+        }
+        steps.extend([(K_UP, 0, 1), (K_RETRY, 0, 0), (K_SLEEP, ms, 0), (K_KILL, 0, 0), (K_START, 0, 0), (K_SLEEP, 4000, 0), (K_SETTLE, 0, 0)]);
+        v.push(fam(28, 1, o, steps));
+    }
     v
 }
 
@@ -1056,6 +1273,7 @@ fn est_cost(sc: &Scenario) -> u64 {
             K_REVNOWAIT => b,
             K_SETTLE | K_WAKE => settle,
             K_KILL | K_START => 1500,
+            K_WAITSTATUS => 4000,
             _ => 100,
         })
         .sum()
@@ -1064,6 +1282,7 @@ fn est_cost(sc: &Scenario) -> u64 {
 async fn run_all(bin: PathBuf, scratch: PathBuf, scs: Vec<Scenario>, out: &mut dyn Write) {
     let par = env_u64("CP_PAR", 16) as usize;
     let sem = Arc::new(tokio::sync::Semaphore::new(par));
+    let bulk_sem = Arc::new(tokio::sync::Semaphore::new(env_u64("CP_BULK_PAR", 4) as usize));
     // longest first (the output keeps the order of the scenario list)
     let n = scs.len();
     let mut order: Vec<(usize, Scenario)> = scs.into_iter().enumerate().collect();
@@ -1073,8 +1292,13 @@ async fn run_all(bin: PathBuf, scratch: PathBuf, scs: Vec<Scenario>, out: &mut d
         let permit = sem.clone().acquire_owned().await.unwrap();
         let bin = bin.clone();
         let scratch = scratch.clone();
+        let bulk = bulk_sem.clone();
         handles[i] = Some(tokio::spawn(async move {
+            // the bulk-delivery scenarios commit (fsync) at a high rate: only a few of them at a time, or the disk makes every
+            // other scenario miss its deadlines
+            let bulk_permit = if matches!(sc.family, 26 | 28) { Some(bulk.acquire_owned().await.unwrap()) } else { None };
             let s = run_scenario(i, bin, scratch, sc).await;
+            drop(bulk_permit);
             drop(permit);
             s
         }));
